@@ -63,10 +63,34 @@ def init_tree(name, pristine=False):
 def make_scenario(spec):
     """spec: dict(name, init, threads={T1:[ops],..}, mode, pristine, followups, pids, formats, split)"""
     threads = {k: [tuple(op) for op in v] for k, v in spec["threads"].items()}
-    return lin.LinScenario(spec["name"], init_tree(spec["init"], spec.get("pristine", False)), threads, P, ctx(),
-                           spec.get("pids", ("p1", "p2", "p3")), spec.get("formats", ()), spec.get("mode", "th"),
-                           spec.get("split", False),
-                           [tuple(op) for op in spec.get("followups", ())])
+    sc = lin.LinScenario(spec["name"], init_tree(spec["init"], spec.get("pristine", False)), threads, P, ctx(),
+                         spec.get("pids", ("p1", "p2", "p3")), spec.get("formats", ()), spec.get("mode", "th"),
+                         spec.get("split", False),
+                         [tuple(op) for op in spec.get("followups", ())])
+    sc.faults = {k: tuple(v) for k, v in (spec.get("faults") or {}).items()}
+    return sc
+
+
+def fault_classes(spec, thread):
+    """Fault-site classes (class, occurrence) of `thread`'s calls when the scenario runs with that thread first."""
+    from . import engine_f
+    env.install()
+    sc = make_scenario(dict(spec, faults=None))
+    root = os.path.join(common.scratch(), "store")
+    trace = []
+    engine_t.run_execution(sc, root, [thread], set(), explore=False, trace_out=trace)
+    # private operations are not in trace_out; re-run single-threaded with the recorder for the complete list
+    out, counts = [], {}
+    w = None
+    for t in sc.threads[thread]:
+        r = engine_f.run_call(root, sc.init_tree, P, t, ctx())
+        for op in r.sites:
+            if engine_f.is_fault_site(op):
+                k = engine_f.site_class(op)
+                out.append((k, counts.get(k, 0)))
+                counts[k] = counts.get(k, 0) + 1
+        break  # first call only
+    return out
 
 
 def run_job(spec):
